@@ -147,6 +147,8 @@ def gen_A(key, op):
                 cube[a : a + parts[k], :, :] = fill
                 scn["cube"] = S.arr2j(cube)
                 scn["pattern"] = str(scn.get("pattern")) + "+empty-chunk"
+        if rng.random() < 0.3 and op != "dekad":
+            scn["pipe"] = S.gen_pipe(rng, scn)  # equal-or-raise still applies; the consumer sees time blocks
     elif r < 0.24 and any(b == "dask" for b in scn["secondary_backing"].values()):
         scn["secondary_chunks"] = {
             name: {"y": S.composition(rng, Y), "x": S.composition(rng, X)}
@@ -171,7 +173,7 @@ def gen_A(key, op):
             if op == "zonal_mean":
                 scn["params"]["name"] = p2["params"]["name"] = "zm"
         scn["pair"] = p2
-    elif r < 0.70 and op != "dekad" and not runner.relaxed(scn):
+    elif r < 0.70 and op != "dekad" and runner.relaxed(scn) in (None, "core-dim-chunked"):
         # O11: the lazy cube has an upstream history and/or the result feeds a downstream consumer
         scn["pipe"] = S.gen_pipe(rng, scn)
     cfg = runner.gen_config(rng)
